@@ -372,6 +372,12 @@ def let_env(body):
                     sub = fd.get("pat", {})
                     if sub.get("k") == "Binding" and "Mut" not in (sub.get("mode") or "").split(",")[-1] and not sub.get("sub") and sub.get("hid") is not None:
                         env[sub["hid"]] = {"k": "Field", "e": n["init"], "name": fd["name"], "line": n.get("line"), "exp": False}
+            elif q.get("k") == "Slice" and strip(n["init"]).get("k") == "Array" and not q.get("slice") \
+                    and len(q.get("before", [])) + len(q.get("after", []) or []) == len(strip(n["init"])["elems"]):
+                # `let [a, b, c] = [x, y, z];` (the array parameter of an inlined helper): each binding is the element at its position
+                for sub, el in zip(list(q.get("before", [])) + list(q.get("after", []) or []), strip(n["init"])["elems"]):
+                    if sub.get("k") == "Binding" and "Mut" not in (sub.get("mode") or "").split(",")[-1] and not sub.get("sub") and sub.get("hid") is not None:
+                        env[sub["hid"]] = el
             elif q.get("k") == "Tuple" and strip(n["init"]).get("k") == "Tup" and len(strip(n["init"])["elems"]) == len(q.get("pats", [])):
                 # `let (previous, current) = (chars[i - 1], chars[i]);` -- each binding is the element at its position
                 for sub, el in zip(q["pats"], strip(n["init"])["elems"]):
